@@ -668,6 +668,14 @@ fn statement_inputs(rng: &mut Rng, thorough: bool, out: &mut Vec<Input>) {
             push("dim-not-executed", format!("{}{}\n", guard, use_), b"7\n".to_vec());
         }
     }
+    // records and fixed-length strings whose DIM is not executed
+    for use_ in ["PRINT U.A", "U.A = 4", "U.S = \"xy\"", "V = U", "PRINT LEN(U)", "PRINT \"[\"; F; \"]\"", "F = \"abcdef\"\nPRINT LEN(F)"] {
+        push(
+            "dim-not-executed",
+            format!("TYPE T\n A AS INTEGER\n S AS STRING * 3\nEND TYPE\nDIM V AS T\nIF 0 THEN\nDIM U AS T\nDIM F AS STRING * 4\nEND IF\n{}\n", use_),
+            vec![],
+        );
+    }
     // arrays whose element slots fit but whose elements own heap data (records, fixed-length strings)
     for t in [
         "TYPE BIGREC\n I AS INTEGER\n T AS STRING * 200\n D AS DOUBLE\nEND TYPE\nDIM A(32767, 200) AS BIGREC\nPRINT \"ok\"\n",
